@@ -18,16 +18,24 @@ let show_tok (t : TextReader.rtok) : string =
   | TextReader.RUnq s -> "U:" ^ hex_of_bytes s
   | TextReader.RQuo s -> "Q:" ^ hex_of_bytes s
 
+(* s_c20 (wave 6): `F<k>` = a fault of explicit io::ErrorKind k (not modelled: one Fail event); `<e>x<count>` = the
+   event e repeated count times (expanded by fam_c20.rs before util::parse_sched) *)
 let parse_sched (s : string) : BufWin.event list =
   if s = "-" || s = "" then []
-  else Li.map (fun x -> if x = "F" then BufWin.Fail else BufWin.Data (n_of_string x)) (St.split_on_char ',' s)
+  else
+    let one x = if St.length x > 0 && x.[0] = 'F' then BufWin.Fail else BufWin.Data (n_of_string x) in
+    Li.concat_map (fun x ->
+        match St.index_opt x 'x' with
+        | Some i -> Li.init (int_of_string (St.sub x (i + 1) (St.length x - i - 1))) (fun _ -> one (St.sub x 0 i))
+        | None -> [one x]) (St.split_on_char ',' s)
 
 let starts_with p s = St.length s >= St.length p && St.sub s 0 (St.length p) = p
 
 let text_ops cap sched h ops : string =
   let input = bytes_of_hex h in
-  let fuel = nat_of_int (4 * (Li.length input + St.length sched) + 64) in
-  let r = ref (TextReader.reader_new (nat_of_int (int_of_string cap)) input (parse_sched sched)) in
+  let evs = parse_sched sched in
+  let fuel = nat_of_int (4 * (Li.length input + St.length sched + Li.length evs) + 64) in
+  let r = ref (TextReader.reader_new (nat_of_int (int_of_string cap)) input evs) in
   let out = ref [] in
   let crashed = ref false in
   let pos () = string_of_int (int_of_nat (TextReader.reader_position !r)) in
@@ -75,16 +83,24 @@ let de_sched (s : string) (len : int) : BufWin.event list =
   let arr = Stdlib.Array.of_list evs in
   let nb = Stdlib.Array.length arr in
   let base_at i = if nb = 0 then "fill" else if i < nb then arr.(i) else if cyc then arr.(i mod nb) else "fill" in
+  (* s_c20 (wave 6): @<k>(F|P)[<kind>][x<run>]: the io::ErrorKind is not modelled (one Fail event); run = number of
+     consecutive failing calls of a one-shot fault *)
+  let run = ref 1 in
   let inj = match inj with
     | None -> None
-    | Some x -> Some (int_of_string (St.sub x 0 (St.length x - 1)), x.[St.length x - 1] = 'P') in
+    | Some x ->
+      let x = match St.index_opt x 'x' with
+        | Some i -> run := int_of_string (St.sub x (i + 1) (St.length x - i - 1)); St.sub x 0 i
+        | None -> x in
+      let at = match St.index_opt x 'F' with Some i -> i | None -> St.index x 'P' in
+      Some (int_of_string (St.sub x 0 at), x.[at] = 'P') in
   let out = ref [] in
   let bi = ref 0 in
   let dead = ref false in
-  for call = 0 to total - 1 do
+  for call = 0 to total + !run - 1 do
     if !dead then out := BufWin.Fail :: !out
     else match inj with
-      | Some (k, pers) when call = k -> (if pers then dead := true); out := BufWin.Fail :: !out
+      | Some (k, pers) when call >= k && call < k + !run -> (if pers then dead := true); out := BufWin.Fail :: !out
       | _ ->
         let e = base_at !bi in
         incr bi;
